@@ -883,7 +883,8 @@ package formula
 //@   requires p != nil && len(p.parseDiagnostics) == 0
 //@   assigns p.sourceCode, p.scanner, p.parseDiagnostics, p.nodeCount, p.identifierCount, p.parsingCtx
 //@   ensures result != nil && fresh(result) && result == p.sourceCode && result.Text == p.sourceText && len(result.LineStarts) == 0
-//@   ensures[C01] okx(result.Expression) && result.EndOfFileToken != nil && result.EndOfFileToken.Token == SK_EndOfFile
+//@   panics never
+//@   ensures[C01] okx(result.Expression) && result.EndOfFileToken != nil && (ndp(p) == 0 ==> result.EndOfFileToken.Token == SK_EndOfFile)
 //@   ensures[C01] result.Diagnostics == p.parseDiagnostics && diagsok(p)
 //@   ensures[C15] result.pos == 0 && result.end == len(result.Text) && xpos(result.Expression) == 0 && xend(result.Expression) <= len(result.Text)
 
